@@ -70,7 +70,7 @@ class TSum(Ty):
     def coq(self): return '(%s + %s)' % (self.a.coq(), self.b.coq())
 class TLst(Ty):
     def __init__(self, t): self.t = t
-    def coq(self): return 'list (%s)' % (self.t.coq() if self.t is not None else '_')
+    def coq(self): return 'list (%s)' % (self.t.coq() if self.t is not None else 'unit')
 
 Q, Z, B, NUM, NONE, STR = TQ(), TZ(), TB(), TNum(), TNone(), TStr()
 
@@ -127,6 +127,21 @@ class ClassRegistry:
 CLASSES = ClassRegistry()
 
 
+def is_validation(st):
+    """a statement that can only raise (input validation): asserts, bare side-effect-free expressions, raises, loops / try blocks made
+    of those.  Dropped like asserts: the model covers the inputs the constructor accepts."""
+    if isinstance(st, (ast.Assert, ast.Pass, ast.Raise)):
+        return True
+    if isinstance(st, ast.Expr):
+        return not any(isinstance(n, (ast.Call, ast.Await, ast.Yield, ast.NamedExpr)) for n in ast.walk(st.value))
+    if isinstance(st, ast.For):
+        return not st.orelse and all(is_validation(b) for b in st.body)
+    if isinstance(st, ast.Try):
+        return not st.orelse and not st.finalbody and all(is_validation(b) for b in st.body) \
+            and all(all(isinstance(b, ast.Raise) for b in h.body) for h in st.handlers)
+    return False
+
+
 def rec(coq, ctor, fields, **kw):
     d = dict(coq=coq, ctor=ctor, fields=fields)
     d.update(kw)
@@ -159,10 +174,11 @@ def configure_classes():
                                                        ('_interpolated', 'pl2_interp', B)])
     c['Polyline3D'] = rec('Polyline3R', 'mkPolyline3', [('_vertices', 'pl3_vertices', TLst(O('Point3D'))),
                                                        ('_interpolated', 'pl3_interp', B)])
+    # MODEL RESTRICTION: meshes WITHOUT colours (`_colors` is None); coloured meshes are outside the model
     c['Mesh2D'] = rec('Mesh2R', 'mkMesh2', [('_vertices', 'm2_vertices', TLst(O('Point2D'))),
-                                            ('_faces', 'm2_faces', TLst(TLst(Z)))])
+                                            ('_faces', 'm2_faces', TLst(TLst(Z)))], none_slots={'_colors'})
     c['Mesh3D'] = rec('Mesh3R', 'mkMesh3', [('_vertices', 'm3_vertices', TLst(O('Point3D'))),
-                                            ('_faces', 'm3_faces', TLst(TLst(Z)))])
+                                            ('_faces', 'm3_faces', TLst(TLst(Z)))], none_slots={'_colors'})
     c['Face3D'] = rec('Face3R', 'mkFace3', [('_boundary', 'f3_boundary', TLst(O('Point3D'))),
                                             ('_holes', 'f3_holes', TOpt(TLst(TLst(O('Point3D'))))),
                                             ('_plane', 'f3_plane', O('Plane'))],
@@ -1111,6 +1127,30 @@ class FuncTranslator:
         if isinstance(test, ast.Name) and test.id in env and isinstance(env[test.id], Val) \
                 and isinstance(env[test.id].t, TB) and env[test.id].s in ('true', 'false'):
             return env[test.id].s == 'true'       # a flag left at its literal default (e.g. check_intersection=False)
+        if isinstance(test, ast.Call) and isinstance(test.func, ast.Name) and test.func.id in ('all', 'any') and len(test.args) == 1 \
+                and isinstance(test.args[0], ast.GeneratorExp) and len(test.args[0].generators) == 1 \
+                and not test.args[0].generators[0].ifs and isinstance(test.args[0].generators[0].target, ast.Name):
+            # all(c(x) for x in L) / any(...) where c(x) is decided statically for every element (e.g. `x._memo is not None`: the model
+            # has no memo).  MODEL RESTRICTION: L is taken to be non-empty (all() of an empty list is True).
+            g = test.args[0].generators[0]
+            try:
+                it = self.expr(g.iter, env)
+            except Untranslatable:
+                return None
+            if isinstance(it.t, TLst) and it.t.t is not None:
+                env2 = dict(env)
+                env2[g.target.id] = Val(g.target.id + '_', it.t.t)
+                r = self.static_cond(test.args[0].elt, env2)
+                if r is not None:
+                    return r
+            return None
+        if isinstance(test, ast.Attribute):
+            try:
+                v = self.expr(test, env)
+            except Untranslatable:
+                return None
+            if isinstance(v.t, TNone):
+                return False                      # a slot the model fixes to None (e.g. mesh colours)
         return None
 
     def is_cache_slot(self, attr):
@@ -1280,7 +1320,7 @@ class FuncTranslator:
         return [init, loop]
 
     def for_stmt(self, st, rest, env):
-        if all(isinstance(b, (ast.Assert, ast.Pass)) for b in st.body):
+        if all(is_validation(b) for b in st.body):
             return self.block(rest, env)
         if any(isinstance(n, ast.Break) for b in st.body for n in ast.walk(b)):
             rw = self.rewrite_break(st)
@@ -1790,6 +1830,8 @@ class FuncTranslator:
                     if v.s == '<building>':
                         self.fail(node, 'read of unassigned self.%s' % attr)
                     return Val('%s %s' % (acc, paren(v.s)), ty)
+            if attr in cfg.get('none_slots', ()):
+                return Val('tt', NONE)
             if attr == '__class__':
                 return Val('tt', TCls(cls))
             if attr.startswith('_') and not attr.startswith('__'):
